@@ -282,7 +282,7 @@ func soakC19(c *core.Ctx) {
 				if err, _ := c19Apply(m, c19Ev{Kind: "batch", P: p, T: t}); err != nil {
 					return core.Fail("batch %d: %v", k, err)
 				}
-				if r, _ := m.Result(); r != float64(correct)/float64(total) {
+				if r, _ := m.Result(); !accEq(r, float64(correct)/float64(total)) {
 					return core.Fail("after %d batches on one metric (runtime.GC() every 8): Result %v, expected %d/%d", k+1, r, correct, total)
 				}
 				if k%8 == 7 {
